@@ -119,10 +119,22 @@ func (s *vSrv) monitor(c *change.Change) {
 
 func (s *vSrv) detach(idx int) { delete(s.rows, idx) }
 
-// vReplica creates an attached replica with a symbolic actor id.
+var vActorNames []string
+
+func init() {
+	zzvsym.OnReset(func() {
+		vActorNames = nil
+		vSmallAlphabet = false
+	})
+}
+
+// vReplica creates an attached replica with a symbolic actor id that is
+// non-zero and distinct from every replica created before.
 func vReplica(name string, opts ...Option) *Document {
 	d := New("doc", opts...)
 	d.SetActor(time.ActorID(zzvsym.Actor(name)))
+	vActorNames = append(vActorNames, name)
+	zzvsym.DistinctActors(vActorNames...)
 	d.SetStatus(StatusAttached)
 	return d
 }
